@@ -197,27 +197,15 @@ pub fn diff_obs(o: &Obs, c: &Content) -> Vec<String> {
 pub fn diff_reparsed(o: &Obs, c: &Content) -> Vec<String> {
     let mut d = o.anomalies.clone();
     let m = vcore::ref_bin::materialise_cstrings(c);
-    if o.size != m.size() {
-        d.push(format!("re-parsed size {} != {} (data {} + padded c-string pool {})", o.size, m.size(), c.size(), m.size() - c.size()));
+    // bytes, strings and pointers with the order of the c-string pool left open
+    let dm = vcore::ref_bin::diff_materialised(&o.bytes, &o.strings, &o.pointers, c);
+    if o.size != o.bytes.len() {
+        d.push(format!("size() = {} but {} bytes are readable", o.size, o.bytes.len()));
+    }
+    let size_differs = o.bytes.len() != m.size();
+    d.extend(dm);
+    if size_differs {
         return d;
-    }
-    let mut covered = vec![false; m.size()];
-    for a in m.strings.keys().chain(m.pointers.keys()).chain(m.cstrings.keys()) {
-        for i in *a..(*a + 4).min(m.size()) {
-            covered[i] = true;
-        }
-    }
-    for i in 0..m.size() {
-        if !covered[i] && o.bytes.get(i) != m.data.get(i) {
-            d.push(format!("raw byte {} is {:?}, expected {:?}", i, o.bytes.get(i), m.data.get(i)));
-            break;
-        }
-    }
-    if o.strings != m.strings {
-        d.push(format!("strings {:?} != expected {:?}", o.strings, m.strings));
-    }
-    if o.pointers != m.pointers {
-        d.push(format!("pointers {:?} != expected {:?}", o.pointers, m.pointers));
     }
     for (addr, s) in &c.cstrings {
         if o.cstr_reads.get(addr) != Some(s) {
